@@ -191,7 +191,7 @@ func genCase(r *core.Rand) *kase {
 	}
 	if r.Chance(1, 3) {
 		k.lb = 1 + r.Intn(2)
-	} else if r.Chance(1, 5) {
+	} else if r.Chance(1, 8) {
 		k.lb, k.fails, k.mode = 3, 0, 0 // fastcgi transport
 	}
 	// ---- connection
@@ -251,7 +251,7 @@ func genCase(r *core.Rand) *kase {
 	if r.Chance(1, 10) {
 		k.hdrs = append(k.hdrs, hdrField{r.Pick([]string{"User-Agent", "Te", "Accept", "Forwarded"}), r.Pick([]string{"x", "trailers", "for=10.0.0.1"})})
 	}
-	if k.lb == 3 && r.Chance(1, 25) {
+	if k.lb == 3 && r.Chance(1, 50) {
 		// a field spelled with underscores: CGI gives it the same variable name as the hyphenated field
 		k.hdrs = append(k.hdrs, hdrField{r.Pick([]string{"X_Forwarded_For", "x_forwarded_proto", "X_Forwarded-Host", "X-Forwarded_For"}),
 			r.Pick([]string{"6.6.6.6", "https", "evil.test"})})
